@@ -329,7 +329,7 @@ def check_overlap_surfaces(ctx):
             D.check_handlers(ctx, 'R7-overlap-surfaces', d)
     # the collision guards themselves (C11 clauses 4 and 7)
     from .c11 import check as c11_check
-    c11_check(ctx, parts=('index', 'guards', 'atomic'))
+    c11_check(ctx, parts=('index', 'guards', 'atomic', 'append'))
 
 
 def check(ctx):
@@ -339,6 +339,16 @@ def check(ctx):
     check_pairs(ctx)
     check_fill_and_buffer(ctx)
     check_overlap_surfaces(ctx)
+    # Round 9.  pack emits the full width of every field: the bytes come back only if unpack took
+    # exactly that many -- a decoder that accepts "what is there" (a short slice) stores a value
+    # whose encoding is longer than the input.  The strict-decode rule of C04 on every strategy
+    from ..model import strategy_variants
+    from .c04 import check_strategy_strict
+    for ci_, fi_, s_, parked_ in strategy_variants(ctx.repo, 'unpack'):
+        try:
+            check_strategy_strict(ctx, ci_, fi_, s_, parked_, rule='R1-takes-what-it-gives-back')
+        except Undecided as e:
+            ctx.undecided('R1-takes-what-it-gives-back', fi_, fi_.qual, str(e), fi_.node.lineno)
     ctx.trust(*ASSUMPTIONS)
 
 
